@@ -58,7 +58,10 @@ def degenerate_case(case):
         a, b = labels[0], labels[-1]
         eq = r.choice(["%s -> 4 %s" % (a, b), "2 %s + 3 %s -> %s" % (a, b, a), "%s -> 3 %s + 2 %s" % (a, a, b), "5 %s -> 6 %s" % (a, b),
                        "4 %s + 4 %s -> " % (a, b)])
-        rx.append(st.Reaction(eq, kf=r.choice([0.0, 1e-6]), kr=r.choice([0.0, 0.0, 1e-9])))
+        kf_ = r.choice([0.0, 1e-6])
+        if a == b and eq.startswith("5 "):
+            kf_ = 0.0        # quintic autocatalysis '5 A -> 6 A' from 150 molecules explodes within three steps (tau-leap then sits in the known overflow)
+        rx.append(st.Reaction(eq, kf=kf_, kr=r.choice([0.0, 0.0, 1e-9])))
     if r.random() < 0.12:
         # many reactions (33..140 objects, i.e. 66..280 one-way channels): more than a small fixed-size table holds
         for j in range(r.randint(33, 140)):
